@@ -5,7 +5,7 @@ CONSTANTS
   Cuts <- MCCuts
   Progs <- MCProgs
   Roles = {"server", "client"}
-  Compressed = {FALSE}
+  Compressed = {FALSE, TRUE}
   HModes = {"default"}
   Kinds = {"eof", "err", "timeout"}
 CONSTRAINT Emit
